@@ -10,12 +10,15 @@ package main
 
 import (
 	"go/token"
+	"os"
 	"slices"
 
 	"golang.org/x/tools/go/ssa"
 )
 
 type specAbort struct{}
+
+var debugMerge = os.Getenv("GOSYM_DEBUGMERGE") != ""
 
 type pdomInfo struct {
 	ipdom []int // by block index; -1 = virtual exit / none
@@ -150,6 +153,11 @@ func (m *Machine) tryIfConvert(fr *frame, ins *ssa.If, cond *Term) (ok bool) {
 			if visited[blk.Index] || depth > 24 || len(visited) > 24 {
 				panic(specAbort{})
 			}
+			if blk.Dominates(prev) {
+				// entering a block over a back-edge would re-define SSA values of the
+				// previous iteration that the other side of the branch may still read
+				panic(specAbort{})
+			}
 			visited[blk.Index] = true
 			fr.prevBlock, fr.block = prev, blk
 			for _, in := range m.executePhis(fr) {
@@ -215,6 +223,9 @@ func (m *Machine) tryIfConvert(fr *frame, ins *ssa.If, cond *Term) (ok bool) {
 	fr.prevBlock, fr.block = arrivals[0].pred, J
 	fr.phisDone = true
 	m.merges++
+	if debugMerge {
+		println("MERGE", fr.fn.String(), "block", X.Index, "join", J.Index, "arrivals", len(arrivals), "phis", len(phis))
+	}
 	return true
 }
 
